@@ -102,11 +102,13 @@ CHECKS["C03"] = dict(
          "in one scope (all behaviour pairs) or in two scopes (all scope pairs); variable names are SMT strings over {letter, dot, letter, "
          "0xFF} of length 1..2 (quick) / 1..4 (thorough), values arbitrary strings. Per path the solver decides: the files on disk are "
          "exactly NAME.<suffix> with the raw value in the spec's directory per scope, nothing stale remains, the bystander file is untouched, "
-         "and reading back yields the written environment for every scope.",
+         "and reading back yields the written environment for every scope. Read side: env/, env.build/ or env.launch/ holding two files "
+         "<stem><tail> that libcnb did not write (stem an SMT string over the same alphabet, tail one of: none, the five suffixes, `.bogus`, "
+         "`.`) and optionally a sub-directory; the solver decides that reading yields exactly: known suffix -> that behaviour for <stem>, "
+         "suffix-less -> override, unknown/empty suffix and directories ignored.",
     design_ref="DESIGN.md §5 C03",
     technique="symbolic execution of rustc MIR (mirsym) with SMT-string file names in a directory model + z3 strings; witness replay on a real temp dir",
-    note="Names without '/' and NUL; Path::file_stem/extension per std's documented rule. The read side for arbitrary spec-shaped "
-         "directories (suffix-less / unknown-suffix files) is not yet covered. " + BASE_NOTE)
+    note="Names without '/' and NUL; Path::file_stem/extension per std's documented rule. Read side bounded to two foreign files per directory. " + BASE_NOTE)
 
 CHECKS["C10"] = dict(
     text="Bounded model checking from MIR of LayerEnv::{read_from_layer_dir, write_to_layer_dir, apply} (+ LayerEnvDelta, Env): bin and "
